@@ -5,6 +5,28 @@
 #include <cmath>
 #include <algorithm>
 
+// the daemon's path hash (sdbm over the bytes as plain chars, then a 32-bit mix, top `order` bits), copied so that colliding paths can be built on purpose
+static uint32_t jet_path_hash(const std::string &s, int order) {
+	uint32_t hash = 0;
+	for (char ch : s) { uint32_t c = (uint32_t)(int)ch; hash = ((c + (hash << 6U)) + (hash << 16U)) - hash; }
+	uint32_t key = hash;
+	key = (key ^ 61) ^ (key >> 16); key = key + (key << 3); key = key ^ (key >> 4); key = key * 0x27d4eb2d; key = key ^ (key >> 15);
+	return order >= 32 ? key : (key >> (32 - order));
+}
+// `count` paths for each of the buckets first .. first+span-1 (wrapping) of a table of 2^order slots
+static std::vector<std::string> paths_for_buckets(int order, uint32_t first, int span, int count, const std::string &prefix) {
+	uint32_t size = 1u << order; std::vector<std::vector<std::string>> got((size_t)span);
+	size_t need = (size_t)span * (size_t)count, have = 0;
+	for (uint32_t n = 0; n < 4000000 && have < need; n++) {
+		std::string p = prefix + std::to_string(n);
+		uint32_t b = jet_path_hash(p, order);
+		uint32_t d = (b + size - first) & (size - 1);
+		if (d < (uint32_t)span && (int)got[d].size() < count) { got[d].push_back(p); have++; }
+	}
+	std::vector<std::string> out; for (int k = 0; k < count; k++) for (auto &g : got) if ((int)g.size() > k) out.push_back(g[(size_t)k]);
+	return out;
+}
+
 namespace {
 
 struct GClient { int c; std::string tr; bool alive = true; std::vector<JV> fetch_ids; bool owner_like = false; bool authed = false; };
@@ -269,6 +291,71 @@ struct Gen {
 		p.ops.push_back(o);
 	}
 
+	void emit(int c, const std::string &method, const JV &params, uint64_t dt = 0, bool allow_noid = false) {
+		Op o = mk("send", c); o.a.set("msg", request(method, params, allow_noid)); o.dt = dt; p.ops.push_back(o);
+	}
+	// paths that collide in the element index: several in one bucket with the middle one removed, or a whole neighbourhood filled up
+	void pat_collisions() {
+		GClient *g = alive_client(); if (!g) return;
+		int order = g_variant.element_order;
+		uint32_t first = (uint32_t)r.below(1u << order);
+		std::string pre = "h" + std::to_string(r.below(1000)) + "/";
+		auto val = [&]() { return fresh_value(); };
+		if (order >= 7 && r.chance(0.35)) {
+			// every slot within reach of one bucket is taken: the next key of that bucket has to displace a neighbour (or is refused)
+			std::vector<std::string> fill = paths_for_buckets(order, first, 32, 1, pre);
+			std::vector<std::string> extra = paths_for_buckets(order, first, 1, 3, pre + "x");
+			for (auto &pth : fill) { JV pr = JV::obj(); pr.set("path", JV::str(pth)); pr.set("value", val()); emit(g->c, "add", pr); owner_of[pth] = g->c; is_state[pth] = true; }
+			for (size_t k = 0; k < extra.size() && k < 2; k++) { JV pr = JV::obj(); pr.set("path", JV::str(extra[k])); pr.set("value", val()); emit(g->c, "add", pr); emit(g->c, "add", pr); JV ch = JV::obj(); ch.set("path", JV::str(extra[k])); ch.set("value", val()); emit(g->c, "change", ch); owner_of[extra[k]] = g->c; is_state[extra[k]] = true; }
+			for (size_t k = 0; k < fill.size(); k += 5) { JV pr = JV::obj(); pr.set("path", JV::str(fill[k])); emit(g->c, "remove", pr); owner_of.erase(fill[k]); }
+			for (auto &e : extra) { JV ch = JV::obj(); ch.set("path", JV::str(e)); ch.set("value", val()); emit(g->c, "change", ch); }
+			return;
+		}
+		int n = 3 + (int)r.below(3);
+		std::vector<std::string> same = paths_for_buckets(order, first, 1, n, pre);
+		if ((int)same.size() < 3) return;
+		for (auto &pth : same) { JV pr = JV::obj(); pr.set("path", JV::str(pth)); pr.set("value", val()); emit(g->c, "add", pr); owner_of[pth] = g->c; is_state[pth] = true; paths.push_back(pth); }
+		size_t mid = 1 + r.below(same.size() - 2);
+		{ JV pr = JV::obj(); pr.set("path", JV::str(same[mid])); emit(g->c, "remove", pr); owner_of.erase(same[mid]); }
+		for (size_t k = 0; k < same.size(); k++) { JV ch = JV::obj(); ch.set("path", JV::str(same[k])); ch.set("value", val()); emit(g->c, "change", ch); }
+		{ JV pr = JV::obj(); pr.set("path", JV::str(same.back())); pr.set("value", val()); emit(g->c, "add", pr); }            // still there: must be refused
+		{ JV pr = JV::obj(); pr.set("path", JV::str(same[mid])); pr.set("value", val()); emit(g->c, "add", pr); owner_of[same[mid]] = g->c; }   // free again: must be accepted
+		{ JV gp = JV::obj(); emit(g->c, "get", gp); }
+	}
+	// a routed request is in flight, the owner gives up the element, the caller leaves, and only then the owner answers
+	void pat_owner_removes_then_caller_leaves() {
+		std::vector<int> ix; for (size_t i = 0; i < cl.size(); i++) if (cl[i].alive) ix.push_back((int)i);
+		if (ix.size() < 2) return;
+		int oi = ix[r.below(ix.size())], ci = oi; while (ci == oi) ci = ix[r.below(ix.size())];
+		GClient &ow = cl[(size_t)oi], &ca = cl[(size_t)ci];
+		std::string path = "late/" + std::to_string(++idctr);
+		{ Op po = mk("policy", ow.c); po.a.set("mode", JV::str("result")); po.a.set("delay", JV::num(r.chance(0.5) ? 2000000 : 800000000)); p.ops.push_back(po); }
+		bool state = r.chance(0.6);
+		{ JV pr = JV::obj(); pr.set("path", JV::str(path)); if (state) pr.set("value", JV::num(1)); emit(ow.c, "add", pr); }
+		int nreq = 1 + (int)r.below(3);
+		for (int k = 0; k < nreq; k++) { JV pr = JV::obj(); pr.set("path", JV::str(path)); if (state) pr.set("value", fresh_value()); emit(ca.c, state ? "set" : "call", pr); }
+		{ JV pr = JV::obj(); pr.set("path", JV::str(path)); emit(ow.c, "remove", pr); }
+		{ Op c = mk("close", ca.c); c.a.set("how", JV::str(r.chance(0.7) ? "fin" : "hup")); c.dt = r.chance(0.5) ? 0 : 1000; p.ops.push_back(c); ca.alive = false; for (auto it = owner_of.begin(); it != owner_of.end();) if (it->second == ca.c) it = owner_of.erase(it); else ++it; }
+		if (r.chance(0.6)) op_connect();
+		{ Op a = mk("advance"); a.dt = 1000000000ULL; p.ops.push_back(a); }
+	}
+	// two requests to a silent owner whose deadlines fall on the same instant: both expiries are harvested in one batch
+	void pat_double_expiry() {
+		std::vector<int> ix; for (size_t i = 0; i < cl.size(); i++) if (cl[i].alive) ix.push_back((int)i);
+		if (ix.size() < 2) return;
+		int oi = ix[r.below(ix.size())], ci = oi; while (ci == oi) ci = ix[r.below(ix.size())];
+		GClient &ow = cl[(size_t)oi], &ca = cl[(size_t)ci];
+		std::string path = "slow/" + std::to_string(++idctr);
+		{ Op po = mk("policy", ow.c); po.a.set("mode", JV::str("never")); p.ops.push_back(po); }
+		{ JV pr = JV::obj(); pr.set("path", JV::str(path)); pr.set("value", JV::num(1)); emit(ow.c, "add", pr); }
+		int nreq = 2 + (int)r.below(3);
+		static const double tos[] = {0.25, 0.5, 0.001, 1.0};
+		double to = tos[r.below(4)];
+		for (int k = 0; k < nreq; k++) { JV pr = JV::obj(); pr.set("path", JV::str(path)); pr.set("value", fresh_value()); pr.set("timeout", JV::num(to)); int from = r.chance(0.7) ? ca.c : cl[(size_t)ix[r.below(ix.size())]].c; Op o = mk("send", from); o.a.set("msg", request("set", pr, false)); o.hold = true; p.ops.push_back(o); }
+		{ Op a = mk("advance"); a.dt = (uint64_t)(to * 1e9) + (r.chance(0.5) ? 0 : 1000); a.hold = r.chance(0.5); p.ops.push_back(a); }
+		{ Op po = mk("policy", ow.c); po.a.set("mode", JV::str("result")); p.ops.push_back(po); }
+	}
+
 	void setup_creds(JV &hdr) {
 		creds = true;
 		int ng = 1 + (int)r.below(r.chance(0.2) ? 32 : 6);
@@ -282,7 +369,7 @@ struct Gen {
 			u.set("password", JV::str(pw)); user_pw[name] = pw; user_names.push_back(name);
 			static const char *hs[] = {"des", "des", "des", "md5", "md5", "sha256", "sha512"};
 			u.set("hash", JV::str(hs[r.below(r.chance(0.85) ? 5 : 7)]));
-			for (const char *k : {"fetchGroups", "setGroups", "callGroups"}) { JV a = JV::arr(); int n = (int)r.below(4); for (int j = 0; j < n; j++) a.push(JV::str(groups[r.below(groups.size())])); if (r.chance(0.1)) a.push(JV::str(groups.back())); u.set(k, a); }
+			for (const char *k : {"fetchGroups", "setGroups", "callGroups"}) { if (r.chance(0.15)) { u.put("sparse", JV::boolean(true)); continue; } /* a user may lack a kind of right altogether */ JV a = JV::arr(); int n = (int)r.below(4); for (int j = 0; j < n; j++) a.push(JV::str(groups[r.below(groups.size())])); if (r.chance(0.1)) a.push(JV::str(groups.back())); u.set(k, a); }
 			if (r.chance(0.2)) u.set("admin", JV::boolean(true));
 			if (r.chance(0.2)) u.set("readonly", JV::boolean(true));
 			users.set(name, u);
@@ -430,6 +517,9 @@ Plan gen_base(const std::string &profile, uint64_t seed, const JV &opts) {
 		else if (x < 0.2 && g.cl.size() > 1) { if (profile == "c04" && g.cl.size() > 0) { /* keep observer */ GClient *v = g.alive_client(); if (v && v->c == 0) continue; } g.op_close(); }
 		else if (x < 0.23 && (int)g.cl.size() < g.max_clients) g.op_connect();
 		else if (profile == "c05" && x < 0.30) g.op_violation_then_close();
+		else if ((profile == "c04" || profile == "c01") && x < 0.26 && i > 1 && g.p.ops.size() < 200) g.pat_collisions();
+		else if ((profile == "c03" || profile == "c05" || profile == "base") && x < 0.262 && i > 1) g.pat_owner_removes_then_caller_leaves();
+		else if ((profile == "c14" || profile == "c03") && x < 0.30 && i > 1) g.pat_double_expiry();
 		else if (profile == "c11" && x < 0.33 && !faulty_cs.empty()) {
 			// a fault on a member of the faulty set, or an aborted connection attempt
 			std::vector<int> fc(faulty_cs.begin(), faulty_cs.end()); int c = fc[r.below(fc.size())];
@@ -830,6 +920,7 @@ Plan gen_http(const std::string &profile, uint64_t seed, const JV &opts) {
 		g.p.ops.push_back(o);
 		GClient gc; gc.c = c; gc.tr = "ws"; g.cl.push_back(gc);
 		ws.push_back({c, true});
+		if (i > 0 && r.chance(0.15)) { Op wc = g.mk("wcap", c); wc.a.set("n", JV::num((double)(1 + r.below(40)))); g.p.ops.push_back(wc); Op st = g.mk("stall", c); st.a.set("n", JV::num((double)(20 + r.below(200)))); g.p.ops.push_back(st); Op dr = g.mk("resume", c); dr.dt = 1000; g.p.ops.push_back(dr); }
 	}
 	int nops = r.chance(0.5) ? 3 + (int)r.below(8) : 8 + (int)r.below(40);
 	for (int i = 0; i < nops; i++) {
@@ -1019,6 +1110,18 @@ Plan gen_c10(const std::string &profile, uint64_t seed, const JV &opts) {
 		if (!o.a.has("hex")) o.a.set("msg", msg);
 		g.finish_send(o);
 		g.p.ops.push_back(o);
+	}
+	// parked output, then "readable" and "writable" become ready in the same batch while the input produces no output of its own
+	if (r.chance(0.5)) for (int v : victims) {
+		Op st = g.mk("stall", v); st.a.set("n", JV::num((double)r.below(3))); g.p.ops.push_back(st);
+		int hc = healthy[r.below(healthy.size())];
+		for (int k = 0; k < 2 + (int)r.below(3); k++) { Op o = g.mk("send", hc); JV pr = JV::obj(); std::string path = "edge/" + std::to_string(hc); pr.set("path", JV::str(path)); pr.set("value", big_value()); o.a.set("msg", g.request(k == 0 ? "add" : "change", pr, false)); g.p.ops.push_back(o); }
+		bool raw = true; for (auto &gc : g.cl) if (gc.c == v && gc.tr == "ws") raw = false;
+		Op in = g.mk("send", v);
+		if (raw) in.a.set("hex", JV::str(r.chance(0.5) ? "00000000" : "0000")); else { in.a.set("wsop", JV::num(10)); in.a.set("text", JV::str("")); }
+		in.hold = true; g.p.ops.push_back(in);
+		Op rs = g.mk("resume", v); rs.hold = false; g.p.ops.push_back(rs);
+		Op adv = g.mk("advance"); adv.dt = 1000000; g.p.ops.push_back(adv);
 	}
 	// let the victims drain at the end in most runs so that parked output has to be flushed
 	for (int v : victims) if (r.chance(0.8)) { Op o = g.mk("wcap", v); o.a.set("n", JV::num(0)); g.p.ops.push_back(o); Op o2 = g.mk("resume", v); o2.dt = 1000; g.p.ops.push_back(o2); }
@@ -1260,8 +1363,50 @@ namespace {
 
 // ------------------------------------------------------------------ c15: fixed corpus of short scenarios (every request type, both transports, handshake failure, routed requests, timeouts, disconnects, credentials)
 static const char *c15_profiles[] = {"base", "c01", "c03", "c05", "c08", "c12", "c13", "c16", "c14", "c04"};
-int c15_corpus_size() { return 40; }
+int c15_corpus_size() { return 44; }
+static Plan c15_handmade(int which) {
+	Plan p; p.seed = 0xC15000 + (uint64_t)which;
+	JV h = JV::obj(); h.set("mode", JV::str("exact")); h.set("fill", JV::num(which % 5)); JV argv = JV::arr(); argv.push(JV::str("-f")); h.set("argv", argv); h.set("end", JV::str("close")); p.hdr = h;
+	uint64_t uid = 0; int idc = 0;
+	auto conn = [&](int c, const char *tr) { Op o; o.k = "connect"; o.c = c; o.uid = ++uid; o.a.set("tr", JV::str(tr)); o.a.set("ip", JV::str("127.0.0.1")); JV pol = JV::obj(); pol.set("mode", JV::str("result")); pol.set("delay", JV::num(0)); o.a.set("policy", pol); p.ops.push_back(o); };
+	auto req = [&](int c, const char *m, JV pr) { Op o; o.k = "send"; o.c = c; o.uid = ++uid; JV q = JV::obj(); q.set("id", JV::str("h" + std::to_string(++idc))); q.set("method", JV::str(m)); q.set("params", pr); o.a.set("msg", q); p.ops.push_back(o); };
+	auto P = [](const char *path) { JV pr = JV::obj(); pr.set("path", JV::str(path)); return pr; };
+	if (which == 0 || which == 1) {
+		// one state, five (then six) matching fetches: the element's fetcher table has to grow
+		conn(0, "raw"); conn(1, which == 0 ? "raw" : "ws");
+		JV a = P("grow/x"); a.set("value", JV::num(1)); req(0, "add", a);
+		for (int k = 0; k < 6; k++) { JV f = JV::obj(); f.set("id", JV::str("g" + std::to_string(k))); if (k % 2) { JV ru = JV::obj(); ru.set("startsWith", JV::str("grow")); f.set("path", ru); } req(k < 3 ? 1 : 0, "fetch", f); }
+		JV ch = P("grow/x"); ch.set("value", JV::num(2)); req(0, "change", ch);
+		{ JV u = JV::obj(); u.set("id", JV::str("g1")); req(1, "unfetch", u); }
+		JV ch2 = P("grow/x"); ch2.set("value", JV::num(3)); req(0, "change", ch2);
+		req(0, "remove", P("grow/x"));
+	} else if (which == 2) {
+		// routed call with a numeric id, reply relayed; then the same with the owner leaving
+		conn(0, "raw"); conn(1, "raw");
+		req(0, "add", P("m/one"));
+		{ Op o; o.k = "send"; o.c = 1; o.uid = ++uid; JV q = JV::obj(); q.set("id", JV::num(77)); q.set("method", JV::str("call")); JV pr = P("m/one"); pr.set("args", JV::arr().push(JV::num(1))); q.set("params", pr); o.a.set("msg", q); p.ops.push_back(o); }
+		{ Op po; po.k = "policy"; po.c = 0; po.uid = ++uid; po.a.set("mode", JV::str("never")); p.ops.push_back(po); }
+		{ JV pr = P("m/one"); req(1, "call", pr); }
+		{ Op c; c.k = "close"; c.c = 0; c.uid = ++uid; c.a.set("how", JV::str("fin")); p.ops.push_back(c); }
+	} else {
+		// fetch with every matcher, get with a rule, batch
+		conn(0, "ws"); conn(1, "raw");
+		JV a = P("k/alpha"); a.set("value", JV::str("v")); req(0, "add", a);
+		JV ru = JV::obj(); ru.set("startsWith", JV::str("k/")); ru.set("endsWith", JV::str("a")); ru.set("contains", JV::str("alp")); ru.set("containsAllOf", JV::arr().push(JV::str("k")).push(JV::str("ph"))); ru.set("equalsNot", JV::str("x")); ru.set("caseInsensitive", JV::boolean(true));
+		{ JV f = JV::obj(); f.set("id", JV::num(5)); f.set("path", ru); req(1, "fetch", f); }
+		{ JV g2 = JV::obj(); g2.set("path", ru); req(1, "get", g2); }
+		JV ch = P("k/alpha"); ch.set("value", JV::str("w")); req(0, "change", ch);
+	}
+	return p;
+}
 Plan c15_scenario(int idx) {
+	if (idx >= 40) {
+		Plan best = c15_handmade(idx - 40);
+		JV h = best.hdr;
+		h.set("canary_prop", JV::str("C15")); h.set("memprop", JV::str("C15")); h.set("baseprop", JV::str("C15")); h.set("relabel", JV::str("C15")); h.set("ledgerprop", JV::str("C15")); h.set("shuffle", JV::num(0));
+		best.hdr = h; best.profile = "c15:" + std::to_string(idx);
+		return best;
+	}
 	int np = (int)(sizeof c15_profiles / sizeof *c15_profiles);
 	std::string pf = c15_profiles[idx % np];
 	int nth = idx / np;          // the nth short plan of that profile
